@@ -73,7 +73,7 @@ SStep == \/ SPackDuring \/ SCreateBlob \/ SRewrite \/ SAppend \/ SConsumeFile \/
          \/ STpcBegin \/ SStoreOK \/ SStoreFail \/ SUStoreOK \/ SUStoreFail \/ SVote \/ SFinish \/ SConnAbort
          \/ STpcAbort \/ SOtherCommit \/ SUBegin \/ SPack \/ SUCopyFail \/ SUnlink \/ SRelink \/ SStoreFault \/ SOpenWrite \/ SOpenRead \/ SCloseAll \/ SBoundary \/ SWrong \/ SOtherAbort \/ SOtherFinish \/ SLate
 \* (the enabling condition of Pack is written out: ENABLED would evaluate the packer a second time)
-PackDuringEnabled(T) == Flavour = "wrapmap" /\ txn.who # "none" /\ txn.phase \in {"stored", "voted"} /\ aux.late = "none" /\ T \in 1..clk
+PackDuringEnabled(T) == PackIgnoresInFlight /\ Flavour = "wrapmap" /\ txn.who # "none" /\ txn.phase \in {"stored", "voted"} /\ aux.late = "none" /\ T \in 1..clk
 PackEnabled(T) == HasPack /\ Idle /\ aux.late = "none" /\ IsClean(con) /\ T \in 1..clk
 SSkip == /\ More
          /\ IF E.a = "Pack" THEN ~PackEnabled(KTid(E.T))
